@@ -99,8 +99,16 @@ fn main() {
                 eprintln!("MACHINERY-ERROR unknown property {id}");
                 std::process::exit(2);
             };
+            // checks whose thorough alphabets take seconds run them in the quick tier too
+            let deep_quick = tier == Tier::Quick && ["C19", "C21", "C29", "C34"].contains(&id.as_str());
+            report::DEEP_QUICK.store(deep_quick, std::sync::atomic::Ordering::Relaxed);
             let rep = match util::guarded(|| run(tier)) {
-                Ok(r) => r,
+                Ok(mut r) => {
+                    if deep_quick {
+                        r.assume("the quick tier of this check runs with the thorough tier's alphabets (they take seconds)");
+                    }
+                    r
+                }
                 Err(p) => {
                     println!("MACHINERY-ERROR engine panicked: {p}");
                     std::process::exit(3);
